@@ -189,8 +189,6 @@ class Model():
 
         self.next_id = max(asset.id + 1, self.next_id)
 
-        asset.associations = []
-
         if not hasattr(asset, 'name'):
             asset.name = asset.type + ':' + str(asset.id)
             while asset.name in self.asset_names:
@@ -209,6 +207,11 @@ class Model():
                         ' and we do not allow duplicates.'
                     )
         self.asset_names.add(asset.name)
+
+        # Set after the name: assets are compared attribute by attribute in
+        # the order the attributes were set, and comparing the association
+        # lists of two unnamed assets first can recurse without end.
+        asset.associations = []
 
         # Optional field for extra asset data
         if not hasattr(asset, 'extras'):
